@@ -719,6 +719,7 @@ def _subtree_div(
   # Model:
   body_subtreemass: wp.array2d[float],
   # Data in:
+  xipos_in: wp.array2d[wp.vec3],
   subtree_com_in: wp.array2d[wp.vec3],
   # Data out:
   subtree_com_out: wp.array2d[wp.vec3],
@@ -728,6 +729,9 @@ def _subtree_div(
   mass = body_subtreemass[worldid % body_subtreemass.shape[0], bodyid]
   if mass != 0.0:
     subtree_com_out[worldid, bodyid] = com / mass
+  else:
+    # massless subtree: com is the body's inertial frame origin, as in mj_comPos
+    subtree_com_out[worldid, bodyid] = xipos_in[worldid, bodyid]
 
 
 @wp.kernel
@@ -840,7 +844,9 @@ def com_pos(m: Model, d: Data):
       outputs=[d.subtree_com],
     )
 
-  wp.launch(_subtree_div, dim=(d.nworld, m.nbody), inputs=[m.body_subtreemass, d.subtree_com], outputs=[d.subtree_com])
+  wp.launch(
+    _subtree_div, dim=(d.nworld, m.nbody), inputs=[m.body_subtreemass, d.xipos, d.subtree_com], outputs=[d.subtree_com]
+  )
   wp.launch(
     _cinert,
     dim=(d.nworld, m.nbody),
